@@ -429,9 +429,9 @@ fn run_claim(
             let secure = verdict == Proof::Secure;
             l.outcome(&format!("verdict:{}:{}:{}", claim.tag(), format!("{verdict:?}").to_lowercase(), if tr.is_ok() { "true-claim" } else { "false-claim" }));
             if tr.is_err() || (proves && mask.count_ones() >= 2) {
-                // counted per (world, query, claim, soa), not per subset (keeps the exact count far
-                // below vcore's 40 M cap, so it is the same number on every run)
-                l.nontrivial(fnv_str(&format!("{case_id}|{soa:?}")));
+                // counted per (world, qname, qtype), not per claim/soa/subset (keeps the exact count
+                // far below vcore's 40 M cap, so it is the same number on every run)
+                l.nontrivial(fnv_str(&format!("{}|{qname_s}|{qtype}", world.text)));
             }
             if proves && !secure && soa.is_some() {
                 l.outcome(&format!("obs:valid-proof-not-accepted:{}", claim.tag()));
@@ -764,7 +764,7 @@ fn main() {
          x every qname of {apex, U(3), x.o., names below cuts} x qtype {A,TXT,DS,NS,CNAME} x claim {NXDOMAIN, NODATA, expansion of each published wildcard RRset} \
          x soa_name {each apex, absent} x EVERY non-empty subset of the world's NSEC records -> verify_nsec; oracle: Secure => claim true in the zone \
          (vref::denial::truth) and proven by the subset (nsec_proves). Completeness: every negative/wildcard DO=1 answer of the real server through the real \
-         DnssecDnsHandle. Non-trivial = distinct (world, query, claim, soa) with a false claim or with a valid proof of >= 2 records among the enumerated subsets, plus each completeness case.",
+         DnssecDnsHandle. Non-trivial = distinct (world, qname, qtype) for which some enumerated (claim, soa, subset) has a false claim or a valid proof of >= 2 records, plus each completeness case.",
     );
     ctx.assume("vref::zone + vref::denial (self-tested on every run against RFC 4592 2.2.1/3.3.1, RFC 4034 6.1, RFC 4035 app. A/B, RFC 5155 app. A/B)");
     ctx.assume("the attacker only has genuine signed records of the zone(s) (forged signatures are C06's business); Ed25519 via ring");
